@@ -21,6 +21,8 @@ func checkC19(c *Ctx) {
 	c.Rule("C19-R3", "guarded wScreen state (size, cells, flags, fallback map, the JS grid) is accessed only with the mutex held; no blocking event post while holding it")
 	c.Rule("C19-R4", "mouse handlers are installed only under the matching MouseFlags test, button-less moves are dropped unless motion is enabled")
 	c.Rule("C19-R5", "the JS drawCell call is dominated by the Dirty test and paired with SetDirty(false); palette table for the 16 basic colours equals the xterm values")
+	c.Rule("C19-R7", "the key callback looks a key up under its plain DOM name whatever the modifiers are (the Ctrl-letter names are an additional, earlier lookup)")
+	c.Expect("C19-R7", 1)
 	c.Rule("C19-R6", "the remembered mouse and paste modes are stored only by the togglers, never by anything reachable from Suspend/Resume/Fini; Resume re-applies both from the remembered fields")
 	c.Expect("C19-R6", 4)
 	c.Expect("C19-R1", 2)
@@ -128,6 +130,7 @@ func checkC19(c *Ctx) {
 		}
 	}
 	checkC19Mouse(c, p)
+	checkC19Keys(c, p)
 	checkRememberedModes(c, p, "C19-R6", "wScreen", []string{"mouseFlags", "pasteEnabled"}, []string{"Suspend", "Resume", "Fini"})
 	if rs := p.Fn("tcell:(*wScreen).Resume"); rs != nil {
 		for _, ra := range [][2]string{{"enableMouse", "mouseFlags"}, {"enablePasting", "pasteEnabled"}} {
@@ -353,4 +356,48 @@ func checkC19Draw(c *Ctx, p *Prog) {
 		got, ok := vals[key]
 		c.Check(ok && got == xtermBasic16[i], "C19-R5", fmt.Sprintf("palette[%d]", i), p.pos(obj.Pos()), fmt.Sprintf("got %#06x want %#06x", got, xtermBasic16[i]))
 	}
+}
+
+// checkC19Keys: Ctrl+ArrowUp, Ctrl+Enter, Ctrl+F5 … are named keys with a
+// modifier.  They are found in WebKeyNames under their plain name; the
+// synthetic "Ctrl-x" names exist only for letters.
+func checkC19Keys(c *Ctx, p *Prog) {
+	fn := p.Fn("tcell:(*wScreen).onKeyEvent")
+	if fn == nil {
+		c.Undecided("C19-R7", "(*wScreen).onKeyEvent", "-", "not found")
+		return
+	}
+	n, plain := 0, false
+	detail := ""
+	eachInstr(fn, func(in ssa.Instruction) {
+		lk, ok := in.(*ssa.Lookup)
+		if !ok {
+			return
+		}
+		ld, ok := lk.X.(*ssa.UnOp)
+		if !ok {
+			return
+		}
+		g, ok := ld.X.(*ssa.Global)
+		if !ok || g.Name() != "WebKeyNames" {
+			return
+		}
+		n++
+		// the plain name: the string taken from the callback's argument, unmodified
+		call, ok := lk.Index.(*ssa.Call)
+		if !ok || !strings.HasSuffix(calleeName(&call.Call), "js.Value).String") {
+			detail += "lookup under " + valName(lk.Index) + "; "
+			return
+		}
+		modDep := false
+		for _, a := range guardsAt(in.Block()) {
+			if strings.Contains(a.L, "mod") && (a.Op == "==" || a.Op == "!=") {
+				modDep = true
+			}
+		}
+		if !modDep {
+			plain = true
+		}
+	})
+	c.Check(plain, "C19-R7", "onKeyEvent:plain-name-lookup", p.pos(fn.Pos()), fmt.Sprintf("%d lookups in WebKeyNames, one of them under the unmodified key name and independent of the modifiers: %v %s", n, plain, detail))
 }
